@@ -7,6 +7,9 @@ baseline = json.load(open('/root/.vp/BASELINE.json'))['cmd'] if os.path.exists('
 SIM = "deterministic simulation with fault injection (seeded schedules over real olric+memberlist+redcon+go-redis in one synctest bubble)"
 NOTE = "Trusts the simulator seams (simnet, simsync, fake clock) and that the mechanical source rewrite preserves olric's semantics; 1 P per run; sampling."
 claimed = {
+ "C19": dict(level="exploration", design="DESIGN.md §8 C19",
+   text="Seeded search: two DMaps with colliding name+key concatenations and identical keys, one optionally eviction-bounded, sequential chains on both through all entry points, a Destroy of one while another client writes to the other; afterwards reads through every member, scans, DM.GETENTRY census and STATS must show the destroyed DMap empty on primaries and backups yet writable, and the other DMap equal to its sequential model (values, ttls, lock).",
+   note=NOTE, technique=SIM + "; sequential model per DMap + emptiness census after Destroy"),
  "C10": dict(level="exploration", design="DESIGN.md §8 C10",
    text="Seeded search in three modes: MaxKeys (incl. below the partition count) and MaxInuse with LRU eviction - STATS after every Put checks per-partition shares, no Put fails, the fresh key is readable; MaxIdleDuration on the simulated clock - keys touched inside the window stay readable, after a quiet period of window + enough eviction rounds every key reads not-found.",
    note=NOTE, technique=SIM + "; bound invariants over STATS after every Put, bounded-liveness check on the fake clock"),
